@@ -110,9 +110,19 @@ def denseCase : P String := do
   -- Max / Min act on every storage slot (`for (auto& y : data_)`)
   let thr := (s.size / 2).toFloat + 0.5
   let val := fun (i : Nat) => ((i * 7919) % (s.size + 1) + 1).toFloat
-  let mx := (List.range s.size).filter fun i => cmax floatOps (val i) thr != val i
-  let mn := (List.range s.size).filter fun i => cmin floatOps (val i) thr != val i
-  pure s!"dense size={s.size} addr={showNs addrs} ext={showFs ext} axpy={showNs touched} asg={showFs asg.toList} max={showNs mx} min={showNs mn}"
+  let vals : Array Float := (Array.range s.size).map val
+  let mxA := maxFlat floatOps vals thr
+  let mnA := minFlat floatOps vals thr
+  let mx := (List.range s.size).filter fun i => rd mxA i != val i
+  let mn := (List.range s.size).filter fun i => rd mnA i != val i
+  -- ForEach with two and three operands on index-coded data; Fill; Copy / Swap incl. a size mismatch
+  let fe2 := forEach2Flat s (fun t a => t * 3.0 + a) data vals
+  let fe3 := forEach3Flat s (fun t a b => t + a * b) data vals data
+  let fl := fillFlat data 7.5
+  let other : Array Float := Array.replicate (s.size + (if s.size % 2 == 0 then 0 else 1)) 2.5
+  let cp := match copyFlat data other with | some d => showFs d.toList | none => "runtime_error"
+  let sw := match swapFlat data other with | some (a, b) => showFs (a.toList ++ b.toList) | none => "runtime_error"
+  pure s!"dense size={s.size} addr={showNs addrs} ext={showFs ext} axpy={showNs touched} asg={showFs asg.toList} max={showNs mx} min={showNs mn} fe2={showFs fe2.toList} fe3={showFs fe3.toList} fill={showFs fl.toList} copy={cp} swap={sw}"
 
 /-! ### forcing -/
 def forcingCase : P String := do
@@ -593,19 +603,6 @@ def alphaFlatCase : P String := do
   let J0 : Array Float := (Array.range (p.vectorSize blocks)).map Nat.toFloat
   let J := alphaMinusJacobianFlat L blocks p.nnz p.diagRanks J0 alpha
   pure s!"alphaflat J={showFs J.toList}"
-
-/-- separate-L/U variants with L and U stored in their own (possibly different) orders -/
-def LinAlg.buildMixed (kind : LUKind) (jac : Pattern) (cscL cscU : Bool) : LinAlg :=
-  let az := fun r c => jac.zero? r c
-  let (l, u) := match kind with
-    | .mozart => mozartSymbolic jac.n az
-    | _ => doolittleSymbolic jac.n az
-  let Lp := Pattern.mk' jac.n cscL jac.L l
-  let Up := Pattern.mk' jac.n cscU jac.L u
-  let (fw, bw) := solverRows Lp Up
-  match kind with
-  | .mozart => { kind, A := jac, Lp, Up, mInit := mozartInit jac Lp Up, mRows := mozartRows jac Lp Up, fw, bw }
-  | _ => { kind := .doolittle, A := jac, Lp, Up, dRows := doolittleRows jac Lp Up, fw, bw }
 
 def luMixCase : P String := do
   let kind := luKindOf (← nat)
